@@ -115,7 +115,7 @@ def check_log(sock, stream_frames, label, vi):
                                 label, end, prev))
 
 
-PRELUDES = ["fresh", "connected", "reused-midmessage", "after-send_close", "mid-own-message"]
+PRELUDES = ["fresh", "connected", "reused-midmessage", "after-send_close", "mid-own-message", "created"]
 
 
 class IncHarness:
